@@ -47,6 +47,7 @@ func propC06(w *World, r *Report) {
 	r.Floor("mapmiss", 10)
 	RunIterFresh(w, r, gt)
 	RunIterFreshControl(r)
+	runFlagReduceIn(w, r, "/opentype/gtab")
 	r.Floor("iterfresh", 3)
 	RunControl(r, "memokey", "ctlContext).filter", RunMemoKey)
 	RunControl(r, "slicealias", "ctlSliceAlias", RunSliceAlias)
@@ -105,6 +106,7 @@ func propC07(w *World, r *Report) {
 	RunReuseKey(w, r, gt)
 	RunIterFresh(w, r, gt)
 	RunIterFreshControl(r)
+	runFlagReduceIn(w, r, "/opentype/gtab")
 	r.Floor("iterfresh", 3)
 	RunControl(r, "reusekey", "ctlContext).reuse", RunReuseKey)
 	RunControl(r, "memokey", "ctlContext).filter", RunMemoKey)
